@@ -35,7 +35,9 @@ def dispatch (src : SrcVoice) : SHandler DState := fun cfg op a impl st =>
     -- the broken tie is reported by run.py);
     -- a difference from the implementation is reported as a disagreement whose model output starts with `src`
     match src cfg op a with
-    | some t => if t != impl && v.model == impl then some ({ v with model := "src" :: t }, st) else some (v, st)
+    | some t =>
+      if t != impl && v.model == impl then some ({ v with model := "src" :: t, srcChecked := true }, st)
+      else some ({ v with srcChecked := true }, st)
     | none => some (v, st)
   | none =>
     match handleMapper cfg op a impl st.mapper with
